@@ -275,6 +275,20 @@ func main() {
 		}
 		bz, _ := json.Marshal(st)
 		fmt.Println(string(bz))
+	case "oracle-drive":
+		fh, err := os.Create(*out)
+		if err != nil {
+			fmt.Fprintln(os.Stderr, err)
+			os.Exit(2)
+		}
+		st, err := l2.DriveOracle(fh, *seed, *paths, *maxLen)
+		fh.Close()
+		if err != nil {
+			fmt.Fprintln(os.Stderr, err)
+			os.Exit(2)
+		}
+		bz, _ := json.Marshal(st)
+		fmt.Println(string(bz))
 	case "l2-drive":
 		fh, err := os.Create(*out)
 		if err != nil {
@@ -347,7 +361,12 @@ func main() {
 		writeJSON(*out, rep)
 	case "oracle-replay":
 		os.Exit(replayGeneric(*file, func(nb absx.M) walk.Impl {
-			return newOracleImpl(absx.Int(nb["seed"]), absx.Str(nb["scale"]), absx.Map(nb["meta"]))
+			meta := absx.Map(nb["meta"])
+			if absx.Bool(meta["driver"]) {
+				meta = l2.DriveOracleMeta()
+				meta["enabled"] = absx.Int(nb["run"])%5 != 4
+			}
+			return newOracleImpl(absx.Int(nb["seed"]), absx.Str(nb["scale"]), meta)
 		}))
 	case "val-replay":
 		os.Exit(replayGeneric(*file, func(nb absx.M) walk.Impl {
